@@ -24,7 +24,7 @@ RULES.update({
 COMPONENTS = {
     "worldg": {"real": ["gensign.Run", "gensign/regular handler", "csr.NewReqParam", "config.NewGensignConfig", "message", "keyid", "agent/ssh AgentKey", "sshutils/key",
                         "x/crypto ssh + ssh/agent client and protocol server", "os file system (key directory, config file)", "crypto/rand entropy"],
-               "stub": ["forwarded ssh-agent = reference agent model behind a scripted peer", "CA = scripted csr.Signer minting real SSH certificates", "extra handlers = stub gensign.Handler", "clock = testing/synctest bubble"]},
+               "stub": ["forwarded ssh-agent = reference agent model behind a scripted peer", "CA = scripted csr.Signer minting real SSH certificates", "extra handlers = stub gensign.Handler", "clock = testing/synctest bubble", "a second request of the same process served in a sibling world while the first waits for its agent"]},
     "worldw": {"real": ["yubiagent.ServeAgent", "yubiagent client", "yubiagent *server (hook)", "shimagent.Server (full stack)", "x/crypto ssh/agent protocol server and client", "agent/utils PEM parsing"],
                "stub": ["byte-stream transport = scripted reader/writer or chunked in-memory duplex", "served agent = recording stub YubiAgent (stub stack)", "upstream ssh-agent = reference agent model (full stack)", "PIV tool = stub executable written by the harness"]},
 }
@@ -33,10 +33,10 @@ RULES.update({
     "C20": "one evaluation = one scheduled run (connections with wait / request operations, direct waiters, strategy and seed); distinct = distinct (sorted waiter fates, number of requests, connections, direct waiters)",
 })
 COMPONENTS.update({
-    "worldc": {"real": ["shimagent.Server (sync replaced by scheduler-aware simsync through a build overlay)", "yubiagent.ServeAgent, yubiagent client, concrete server (hook)", "x/crypto ssh/agent client (copy with its mutex replaced)", "Go race detector"],
+    "worldc": {"real": ["shimagent.Server (build overlay made from type-checked syntax trees: sync / time / context replaced by scheduler-aware stand-ins, go statements become scheduler tasks, channel operations that may block - send, receive, select without default, range - stay real operations on real channels but give the token back around them)", "yubiagent.ServeAgent, yubiagent client, concrete server (hook)", "x/crypto ssh/agent client (copy with its mutex replaced)", "Go race detector"],
                "stub": ["scheduler = seeded token scheduler (harness)", "transport = scheduler-aware in-memory duplex", "underlying ssh-agent = reference agent model served by a daemon task", "clock = real but irrelevant: certificate windows are decades away from now on either side"]},
     "worlds": {"real": ["shimagent.Server (via VerifNewFromConn hook; shimagent.New for construction scenarios)", "shimagent filter", "sshutils/cert validation", "keyid.Unmarshal", "x/crypto ssh/agent client"],
-               "stub": ["underlying ssh-agent = reference agent model behind a scripted peer (faults per request index)", "clock = testing/synctest bubble", "transport = in-memory duplex (net.Pipe); unix socket only in construction scenarios"]},
+               "stub": ["underlying ssh-agent = reference agent model behind a scripted peer (faults per request index; slow honest replies; another client adding identities while a call of the shim is in flight)", "clock = testing/synctest bubble", "transport = in-memory duplex (net.Pipe); unix socket only in construction scenarios"]},
     "worldl": {"real": ["crypki.Signer (Sign, postUserSSHCertificate, NewSignerWithGensignConf)", "tlsutils.TLSClientConfiguration", "internal/backoff", "grpc client + go-grpc-middleware retry", "crypto/tls + crypto/x509 (both sides)", "grpc.Server (endpoints)", "sshutils/key.GetPublicKeysFromBytes"],
                "stub": ["network = context dialer onto in-memory listeners (bufconn) with refuse / stall / latency / cut", "CA handlers = scripted SigningServer", "clock = testing/synctest bubble", "client certificate files (leaf or leaf + intermediate) and CA bundles on a real temp directory", "optional sibling TLS client configuration with another CA bundle in the same process"]},
     "worlda": {"real": ["yubiattest.Attestor.Attest", "yubiattest checkSignature / verifyPKCS1v15", "crypto/x509 chain verification"],
@@ -45,11 +45,14 @@ COMPONENTS.update({
 ASSUMPTIONS = {
     "worldg": ["ssh.PublicKey.Verify, x/crypto agent wire codec and encoding/json are trusted", "entropy is real: key bytes and challenges differ between a run and its replay; oracles use roles and equality classes only",
                "key directory lives on a real file system: states are set, I/O errors are not injected", "built with go1.26.8 (testing/synctest), /repo declares go 1.23"],
-    "worldw": ["x/crypto wire codec trusted for the expected-reply computation of standard requests", "the stub PIV tool is a real child process and is not schedulable"],
+    "worldw": ["x/crypto wire codec trusted for the expected-reply computation of standard requests", "the stub PIV tool is a real child process and is not schedulable: parallel slot operations overlap because the tool sleeps 150 ms of real time (a missed overlap loses a detection, never raises an alarm)",
+               "the clock of a synctest bubble stops when its root function returns: the root waits past slow calls so that late actions are observed"],
 }
 ASSUMPTIONS.update({
     "worldc": ["the Go race detector and porcupine are trusted", "the token scheduler is invisible to the race detector (raw pipe syscalls in //go:norace code); tasks are joined through one WaitGroup before results are read",
-               "Go map iteration order inside the code under test is not controlled: a replay may need more than one attempt (the driver retries 3 times)"],
+               "Go map iteration order inside the code under test is not controlled: a replay may need more than one attempt (the driver retries 3 times)",
+               "a select of the code under test with several ready cases is decided by the Go runtime; tickers, re-armed timers and context deadlines of the code under test run in real time (a run that can only go on when one of them fires is never judged a deadlock)",
+               "settling (is every task inside a channel operation parked or through?) relies on the run-queue and P-state counters of go1.26 runtime/metrics, with goroutine wait states from runtime.Stack as a fallback"],
     "worlds": ["the reference agent is the specification of the underlying ssh-agent", "x/crypto agent client wire codec trusted", "Go map iteration order inside the shim is not controlled (affects the order of upstream removals only)"],
     "worldl": ["gRPC, crypto/tls, crypto/x509 trusted", "crypki.NewSigner runs outside the bubble; client certificates are valid 1999-2100 so that they are valid in real and simulated time"],
     "worlda": ["crypto/x509 chain verification and math/big trusted", "RSA keys come from a committed pool (1024, 1536, 2048, 3072, 4096 bits; tagged entries with public exponent 3 / 17 / 257 and with 5120 / 8192-bit moduli)"],
@@ -61,12 +64,12 @@ MUST_PROBE = {
     "C07": ["listing_agrees", "purged_sign_refused", "hardcert_accepted", "op_under_fault"],
     "C08": ["locked_list_empty", "locked_op_refused", "unlocked_with_passphrase", "wrong_passphrase_refused"],
     "C09": ["differential_hidden_some", "hidden_sign_refused"],
-    "C10": ["hardcert_accepted", "hardcert_refused", "sign_with_hardware_cert", "forward_relayed", "op_under_fault", "construct_failure_reported", "slow_reply/raw", "upstream_failure_surfaced"],
-    "C13": ["op_agrees", "served_failure", "slots_agree", "remote_slot_op", "short_slot_line", "signed_through_client_signer", "kept_key_intact_after_later_requests"],
+    "C10": ["hardcert_accepted", "hardcert_refused", "sign_with_hardware_cert", "forward_relayed", "earlier_replies_intact_after_later_calls", "op_under_fault", "construct_failure_reported", "slow_reply/raw", "upstream_failure_surfaced"],
+    "C13": ["op_agrees", "served_failure", "slots_agree", "remote_slot_op", "short_slot_line", "signed_through_client_signer", "kept_key_intact_after_later_requests", "slot_operations_in_parallel"],
     "C17": ["signed", "failover_used", "all_endpoints_fail", "retry_backoff_seen", "backoff_in_bounds", "endpoint_reachable_again_in_later_call"],
     "C18": ["signed", "impostor_before_genuine", "client_cert_presented", "client_chain_presented", "impostor_from_ca_of_another_tls_client"],
     "C01": ["proof_ok", "all_rejected", "regular_success"],
-    "C02": ["regular_success", "unconfigured_algo", "request_served_by_handler_of_earlier_request"],
+    "C02": ["regular_success", "unconfigured_algo", "request_served_by_handler_of_earlier_request", "two_requests_in_one_process_at_the_same_time"],
     "C03": ["regular_success", "regeneration", "cert_signs", "failure_with_old_certs"],
     "C04": ["placement_fired"],
     "C12": ["clean_eof", "oversize_reached", "large_frame_answered"],
